@@ -1,6 +1,7 @@
 #!/bin/bash
 # quick_eval.sh <patch-file> <Cxx> [more props] : apply a patch to /repo, run the quick check(s), always revert (development tool)
 P=$1; shift
+export VERIF_EVIDENCE_DIR=${VERIF_EVIDENCE_DIR:-/tmp/verif_scratch_evidence}   # never overwrite the registered evidence
 cd /repo || exit 2
 [ -z "$(git status --porcelain --untracked-files=no)" ] || { echo "refusing: /repo dirty"; exit 2; }
 git apply "$P" || git apply -3 "$P" || { echo APPLY_FAILED; git checkout -q -- .; exit 2; }
